@@ -212,6 +212,7 @@ func genOp(r *rand.Rand, ws []weighted, actor int, ttl int64) Op {
 		if r.Intn(3) == 0 {
 			op.Old = 1 + r.Intn(4)
 		}
+		op.Flag = r.Intn(5) == 0 // LocateRegionByIDFromPD
 	case "sendfail":
 		op.Key = pickKey(r, true)
 		op.Flag = r.Intn(2) == 0
@@ -299,6 +300,11 @@ func genScenario(cfg simkit.RunConfig, mode string) *Scenario {
 	}
 	nActors := 1 + r.Intn(3)
 	var opTimes []int64 // planned start instants of the ops (ignoring the time the calls take)
+	type endLookup struct {
+		at  int64
+		key string
+	}
+	var endLookups []endLookup // LocateEndKey calls on a border
 	for a := 0; a < nActors; a++ {
 		act := Actor{StartUs: int64(4*r.Intn(300) + a)}
 		nOps := 4 + r.Intn(10)
@@ -310,6 +316,9 @@ func genScenario(cfg simkit.RunConfig, mode string) *Scenario {
 				at += op.Ms * 1000
 			} else {
 				opTimes = append(opTimes, at)
+				if op.Kind == "locend" && len(op.Key) == 1 {
+					endLookups = append(endLookups, endLookup{at, op.Key})
+				}
 			}
 			act.Ops = append(act.Ops, op)
 		}
@@ -349,6 +358,27 @@ func genScenario(cfg simkit.RunConfig, mode string) *Scenario {
 			stopped = true
 			ev.Kind, ev.Store = "stopstore", r.Intn(sc.Stores)
 			sc.Events = append(sc.Events, Event{AtUs: ev.AtUs + 4*int64(100000+r.Intn(1200000)), Kind: "startstore", Store: ev.Store})
+		}
+		sc.Events = append(sc.Events, ev)
+	}
+	// a lookup by end key on a border asks PD twice (region of the key, then the region before it):
+	// aim a border-removing or border-creating event at the gap between the two answers
+	for _, el := range endLookups {
+		if r.Intn(10) >= 4 {
+			continue
+		}
+		ev := Event{AtUs: 4*((el.at+300+int64(r.Intn(4000)))/4) + 3}
+		if r.Intn(3) > 0 {
+			// the key just left of the border: merging its region with the right neighbour removes the border
+			left := el.key
+			for i, q := range queryKeys {
+				if q == el.key && i > 0 {
+					left = queryKeys[i-1]
+				}
+			}
+			ev.Kind, ev.Key, ev.Right = "merge", left, r.Intn(2) == 0
+		} else {
+			ev.Kind, ev.Key, ev.Right = "split", el.key, r.Intn(2) == 0
 		}
 		sc.Events = append(sc.Events, ev)
 	}
@@ -502,7 +532,7 @@ func fmtOp(op *Op) string {
 	case "loadfrom":
 		fmt.Fprintf(&sb, " %q count=%d", op.Key, op.Count)
 	case "byid":
-		fmt.Fprintf(&sb, " region-of %q (topology %d events ago)", op.Key, op.Old)
+		fmt.Fprintf(&sb, " region-of %q (topology %d events ago) fromPD=%v", op.Key, op.Old, op.Flag)
 	case "sendfail":
 		fmt.Fprintf(&sb, " %q reload=%v err=%v", op.Key, op.Flag, op.Flag2)
 	default:
